@@ -215,7 +215,7 @@ DIRECTED = [
     "a:h;a:h;a:h;s:1:0:a=1;s:2:0:a=2;m:0:1:a::-;d:1;m:0:2:a::-;m:0:3:::-;d:2;m:0:4:a::-;m:0:5:::-",
     # odd node names reached through escaped unique clauses and lists of them
     "a:h;a:h;s:1:0:x,y=1&a*=2&a=3&ab=4;t:0:g:1:-1:x\\,y:;t:0:g:1:-1:a\\*:;t:0:g:1:-1:a*:;t:0:g:1:-1:x\\,y,a:;t:0:g:1:-1:x,y:;t:0:g:1:-1:a\\*,ab&x\\,y:",
-    # F39: a list-of-unique-values clause whose item contains an escaped backslash must look up the name a\\b, not ab
+    # F52: a list-of-unique-values clause whose item contains an escaped backslash must look up the name a\\b, not ab
     "a:h;a:h;s:1:0:a\\b=1&ab=3&c=2;t:0:g:1:-1:a\\\\b,c:;t:0:g:1:-1:a\\\\b:;t:0:g:1:-1:a\\\\b,c&*:;m:0:1234:a\\\\b,zz::-",
     # maximum results: abort of the traversal (-1)
     "a:h;a:h;a:h;s:1:0:a=1&b=2&a/x=3;s:2:0:a=4&b=5;t:0:g:1:0:*:;t:0:g:1:1:*:;t:0:g:1:2:*&*/*:;t:0:g:1:3:*&*/*:;t:0:g:1:9:*&*/*:;fn:0:1:/*/*/a;fn:1:2:*;fn:1:-1:a/*;fs:0:1:1:*;fs:0:1:2:*",
@@ -231,21 +231,26 @@ class CHECK(vlib.Check):
     modelled = ("reflector/StorageReflectSession.cpp: NodePathMatcher::DoTraversal/DoTraversalAux/DoDirectChildLookup/CheckChildForTraversal/"
                 "MatchesNode/PathMatches (literally: entries grouped by clause count, hash-lookup path when every clause at a level is unique "
                 "or a list of unique values, alreadyDid, known-entry shortcut, matched/recursed flags, the multi-pattern guard, callback return "
-                "depth), the comma-list key parsing of DoTraversalAux and RemoveEscapeChars in DoDirectChildLookup (over C15's StringMatcher "
-                "model), PassMessageCallbackAux, FindSessionsCallback, FindNodesCallback, FindMatchingNodes, FindMatchingSessions, the default "
+                "depth), the comma-list key parsing of DoTraversalAux and RemoveEscapeChars in DoDirectChildLookup (Refl/ClauseKeys.v, over C15's "
+                "StringMatcher model; the MatchOps instance of the extracted model is the Coq definition Refl/PatInst.v pat_ops), PassMessageCallbackAux, FindSessionsCallback, FindNodesCallback, FindMatchingNodes, FindMatchingSessions, the default "
                 "branch of MessageReceivedFromGateway (forced PR_NAME_SESSION, keys/filters of the Message, default route, broadcast), the "
                 "routing fields of PR_COMMAND_SETPARAMETERS and RemoveParameter for literal names, UpdateDefaultMessageRoute; "
                 "regex/PathMatcher.cpp PutPathsFromMessage (filter bleed-down), PutPathString, AdjustStringPrefix, MatchesPath; "
                 "DumbReflectSession::MessageReceivedFromGateway/MessageReceivedFromSession (routing flags), BroadcastToAllSessions; the tree-building "
                 "commands SETDATA / REMOVEDATA / attach / detach come from the C04 server model (Refl/Server.v).  Not modelled: wildcard "
                 "REMOVEPARAMETERS, QueryFilters that retarget the Message, KICK/GETDATATREES traversals, sockets and the event loop.")
-    premises = ["MatchLaws (premise of every traversal theorem): a clause that reports lookup keys (IsPatternUnique / IsPatternListOfUniqueValues, "
-                "as parsed by DoTraversalAux) matches exactly those names (C15's unique_spec; F8 patterns lie outside)",
-                "tree well-formedness (node paths distinct, every node's parent present): an invariant of the node tree, stated as a premise",
-                "session names distinct; a node is owned by the session named by its second path component",
+    premises = ["clause laws (ckeys_sound / ckeys_complete: a clause that reports lookup keys matches exactly those names): premises of the abstract "
+                "theorems; for the StringMatcher model of C15 + the repaired key parsing of DoTraversalAux they are PROVED (clause_laws_hold, from "
+                "C15's unique_sound / uvlist_sound laws; F8 patterns lie outside C15's Ere model), giving *_stringmatcher theorems without them",
+                "node names are non-empty strings, one number per string (okname; the intern table of the driver: tbl (untbl s) = s)",
+                "tree well-formedness (node paths distinct and non-empty, every node's parent present), distinct session ids, a well-formed "
+                "default-route table: invariants of the server model (Refl/Server.v, C04/C06), stated as premises of deliver_once / "
+                "traversal_eq_bruteforce; built tables satisfy matcher_wf (built_matchers_are_wf)",
+                "a node is owned by the session named by its second path component (GetAncestorNode(NODE_DEPTH_SESSIONNAME))",
                 "repairs assumed by the theorems: F12 (guard = exactly one pattern), F19 (one delivery per session per traversal), F20 (SETPARAMETERS "
-                "copies PR_NAME_KEYS/FILTERS into _parameters); the translator's c_c05_*_as_found flags must all be 0 (Properties_C05.v)",
-                "pattern clauses without empty clauses; REMOVEPARAMETERS with literal names",
+                "copies PR_NAME_KEYS/FILTERS into _parameters), F52 (comma-list lookup keys unescaped once); the translator's c_c05_*_as_found "
+                "flags must all be 0 and PassMessageCallbackAux must return NODE_DEPTH_SESSIONNAME (code_is_repaired)",
+                "pattern clauses without empty clauses; REMOVEPARAMETERS with literal names; QueryFilters that do not retarget the Message",
                 "memory safety and object lifetime of the C++ (observed by ASan/UBSan in the harness only)"]
     rule = ("multi-client histories from random.Random(seed) (streams: route = mixed commands; trav = traversal-heavy with pattern SETS of mixed "
             "depths sharing terminal clauses, literal / comma-list / wildcard clauses in every order; lit = the same with mostly literal clauses so "
